@@ -17,6 +17,11 @@
 //     parserCloseObjectMsgs / tokenizerCloseObjectMsgs: string literals passed to newError in
 //     `case closeObject`; tokenizerStrQuoteFields: receiver fields named in `case strQuote` of the
 //     tokenizer; tokenizerContinueCases: cases of the tokenizer switch whose last statement is `continue`.
+//   - the length tests of the byte-order-mark handling, which the model's BOM rule is instantiated with
+//     (Sen.senTables.bomP / bomT): parserReaderBomLoop / tokLoadBomLoop = the literals N of `cnt < N` in
+//     ParseReader / Load (the loop "a BOM has to be seen whole"); parserReaderBomDetect / tokLoadBomDetect /
+//     parserParseBomDetect / tokParseBomDetect = the literals K of `K < len(buf)` in ParseReader / Load /
+//     Parse.
 //
 // Fails loudly on a source shape it cannot read.
 package main
@@ -334,6 +339,61 @@ func senContinueCases(sw *ast.SwitchStmt) []string {
 	return out
 }
 
+// senLenBounds: the integer literals K of `K < len(buf)` and N of `cnt < N` in the function body.
+func senLenBounds(f *ast.File, recvType, fn string) (detect, loop []int, err error) {
+	fd := senFuncDecl(f, recvType, fn)
+	if fd == nil || fd.Body == nil {
+		return nil, nil, fmt.Errorf("sen: func (*%s).%s not found", recvType, fn)
+	}
+	lit := func(e ast.Expr) (int, bool) {
+		bl, ok := e.(*ast.BasicLit)
+		if !ok || bl.Kind != token.INT {
+			return 0, false
+		}
+		var n int
+		if _, err := fmt.Sscanf(bl.Value, "%d", &n); err != nil {
+			return 0, false
+		}
+		return n, true
+	}
+	isLenBuf := func(e ast.Expr) bool {
+		ce, ok := e.(*ast.CallExpr)
+		if !ok || len(ce.Args) != 1 {
+			return false
+		}
+		id, ok := ce.Fun.(*ast.Ident)
+		if !ok || id.Name != "len" {
+			return false
+		}
+		a, ok := ce.Args[0].(*ast.Ident)
+		return ok && a.Name == "buf"
+	}
+	ast.Inspect(fd.Body, func(x ast.Node) bool {
+		be, ok := x.(*ast.BinaryExpr)
+		if !ok || be.Op != token.LSS {
+			return true
+		}
+		if n, ok := lit(be.X); ok && isLenBuf(be.Y) {
+			detect = append(detect, n)
+		}
+		if id, ok := be.X.(*ast.Ident); ok && id.Name == "cnt" {
+			if n, ok := lit(be.Y); ok {
+				loop = append(loop, n)
+			}
+		}
+		return true
+	})
+	return detect, loop, nil
+}
+
+func senLeanNats(xs []int) string {
+	q := make([]string, len(xs))
+	for i, x := range xs {
+		q[i] = fmt.Sprint(x)
+	}
+	return "[" + strings.Join(q, ", ") + "]"
+}
+
 func senLeanList(xs []string) string {
 	q := make([]string, len(xs))
 	for i, x := range xs {
@@ -411,6 +471,24 @@ func extractSenFacts(repo, out string) ([]string, error) {
 	fmt.Fprintf(&b, "/-- messages of the newError calls in `case closeObject` of tokenizeBuffer -/\ndef tokenizerCloseObjectMsgs : List String := %s\n\n", senLeanList(senErrorMsgs(tco)))
 	fmt.Fprintf(&b, "/-- receiver fields named in `case strQuote` of tokenizeBuffer -/\ndef tokenizerStrQuoteFields : List String := %s\n\n", senLeanList(senFieldsNamed(tsq, trecv)))
 	fmt.Fprintf(&b, "/-- cases of the tokenizer switch whose last statement is `continue` -/\ndef tokenizerContinueCases : List String := %s\n\n", senLeanList(senContinueCases(tsw)))
+	for _, r := range []struct {
+		detect, loop, typ, fn string
+		f                     *ast.File
+	}{
+		{"parserParseBomDetect", "", "Parser", "Parse", pf},
+		{"parserReaderBomDetect", "parserReaderBomLoop", "Parser", "ParseReader", pf},
+		{"tokParseBomDetect", "", "Tokenizer", "Parse", tf},
+		{"tokLoadBomDetect", "tokLoadBomLoop", "Tokenizer", "Load", tf},
+	} {
+		det, loop, err := senLenBounds(r.f, r.typ, r.fn)
+		if err != nil {
+			return nil, err
+		}
+		fmt.Fprintf(&b, "/-- the literals K of `K < len(buf)` in (*%s).%s (the BOM test) -/\ndef %s : List Nat := %s\n\n", r.typ, r.fn, r.detect, senLeanNats(det))
+		if r.loop != "" {
+			fmt.Fprintf(&b, "/-- the literals N of `cnt < N` in (*%s).%s (the loop that tops the first read up) -/\ndef %s : List Nat := %s\n\n", r.typ, r.fn, r.loop, senLeanNats(loop))
+		}
+	}
 	b.WriteString("end OjgVerif.Gen.SenFacts\n")
 	ch, err := writeIfChanged(filepath.Join(out, "SenFacts.lean"), b.String())
 	if err != nil {
